@@ -4,6 +4,8 @@
 exit 0 held on everything explored / 1 VIOLATION printed / 2 inconclusive or engine error
 """
 import argparse
+import base64
+import pickle
 import concurrent.futures as cf
 import glob
 import hashlib
@@ -208,6 +210,21 @@ def process_obligation(py, prop, module, ob, tier, findings, log):
                 rec["verdict"] = "inconclusive"
                 rec["why"] = "twin witness %s fails in plain Python (%s) but the engine confirmed" % (
                     tw.get("args_repr"), rp.get("detail"))
+    for n_ex, ex in enumerate(ob.examples):
+        fake = {"args_b64": base64.b64encode(pickle.dumps(dict(ex))).decode(),
+                "args_repr": {k: repr(v) for k, v in ex.items()}, "messages": []}
+        p = write_replay(prop, module, ob, fake, "example%d" % n_ex)
+        rp = run_replay(p, trace=True)
+        entered.update(rp.get("entered") or [])
+        if rp.get("outcome") == "reproduced" and rec["verdict"] != "violated":
+            rec["verdict"] = "violated"
+            rec["replay_path"] = p
+            rec["samples"].insert(0, {"counterexample": fake["args_repr"], "replay": rp.get("detail")})
+        else:
+            os.remove(p)
+            if rp.get("outcome") == "error" and rec["verdict"] in ("discharged", "bounded-inconclusive"):
+                rec["verdict"] = "inconclusive"
+                rec["why"] = "example %r failed to run: %s" % (ex, rp.get("detail"))
     if ob.engine == "ch":
         rec["entered"] = sorted(entered)
         if rec["verdict"] == "discharged" and rec["confirmed_paths"] == 0:
